@@ -1583,11 +1583,425 @@ def exhaustive_sized(quick=True):
                 if c:
                     yield c
 
+# ----------------------------------------------------------------------------- seventh pass: keys that are not plain text; values JSON renders
+#
+# A case is JSON: a key / a value that JSON cannot carry is a DESCRIPTOR, built into the object just before the call.
+
+KEY_KINDS = ("str", "fresh", "enum", "strsub", "int", "bool", "none", "float", "date", "tuple", "bytes")
+KEYED_ROUTES = ("frame", "row", "append")
+
+
+class _Shown(str):
+    """A text (a str) whose str() is another text."""
+    shown = ""
+
+    def __str__(self):
+        return self.shown
+
+
+def make_keys(records):
+    """records: [[[key descriptor, value], ...], ...] -> the dictionaries.  All str-Enum members of one case are
+    members of ONE class (`class Col(str, Enum)`); equal descriptors give equal keys, not always the same object."""
+    import datetime
+    import enum
+
+    texts = []
+    for rec in records:
+        for kd, _ in rec:
+            if kd["k"] == "enum" and kd["v"] not in texts:
+                texts.append(kd["v"])
+    col = enum.Enum("Col", {"M%d" % i: t for i, t in enumerate(texts)}, type=str) if texts else None
+
+    def key(kd):
+        k, v = kd["k"], kd.get("v")
+        if k == "str":
+            return v
+        if k == "fresh":
+            return "".join([c for c in v]) if len(v) > 1 else v  # equal to v, another object
+        if k == "enum":
+            return col(v)
+        if k == "strsub":
+            x = _Shown(v)
+            x.shown = kd["shown"]
+            return x
+        if k == "int":
+            return int(v)
+        if k == "bool":
+            return bool(v)
+        if k == "none":
+            return None
+        if k == "float":
+            return float(v)
+        if k == "date":
+            return datetime.date(*v)
+        if k == "tuple":
+            return tuple(v)
+        if k == "bytes":
+            return bytes.fromhex(v)
+        raise ValueError(k)
+
+    return [{key(kd): v for kd, v in rec} for rec in records]
+
+
+def valid_keydesc(kd):
+    k = kd["k"]
+    v = kd.get("v")
+    if k in ("str", "fresh", "enum"):
+        return isinstance(v, str) and set(kd) == {"k", "v"}
+    if k == "strsub":
+        return isinstance(v, str) and isinstance(kd["shown"], str)
+    if k == "int":
+        return type(v) is int
+    if k == "bool":
+        return type(v) is bool
+    if k == "none":
+        return set(kd) == {"k"}
+    if k == "float":
+        return type(v) is float and math.isfinite(v)
+    if k == "date":
+        import datetime
+        datetime.date(*v)
+        return len(v) == 3 and all(type(x) is int for x in v)
+    if k == "tuple":
+        return isinstance(v, list) and all(type(x) in (int, str) for x in v)
+    if k == "bytes":
+        bytes.fromhex(v)
+        return isinstance(v, str)
+    return False
+
+
+def _plain_cell(v):
+    return v is None or type(v) in (bool, int, str) and (type(v) is not int or abs(v) < 2**62)
+
+
+def valid_keyed(c):
+    recs = c["records"]
+    if c["route"] not in KEYED_ROUTES or not isinstance(recs, list) or not recs:
+        return False
+    for rec in recs:
+        if not isinstance(rec, list):
+            return False
+        for kv in rec:
+            if not (isinstance(kv, list) and len(kv) == 2 and valid_keydesc(kv[0]) and _plain_cell(kv[1])):
+                return False
+    ds = make_keys(recs)
+    if any(len(d) != len(rec) for d, rec in zip(ds, recs)):
+        return False  # two descriptors of one record are the same key: the record is not the dictionary written down
+    if c["route"] == "row":
+        return len(recs) == 1 and all(isinstance(f, str) for f in c["fields"])
+    if c["route"] == "append":
+        return len(recs) >= 2 and set(c) <= {"kind", "route", "records"}
+    return set(c) <= {"kind", "route", "records"}
+
+
+def impl_keyed(case):
+    from orso import DataFrame
+    from orso.row import Row
+
+    ds = make_keys(case["records"])
+    route = case["route"]
+    try:
+        if route == "row":
+            fields = list(case["fields"])
+            row = Row.create_class(fields)(ds[0])
+            return {"names": fields, "first": views_of(row, keyed_probes(fields), "dflt")}
+        build = ds if route == "frame" else ds[:-1]
+        df = DataFrame(list(build))
+        out = {"names": list(df.column_names), "rows": [canon(tuple(r)) for r in df], "rowcount": df.rowcount}
+        out["views"] = frame_row_views(df, out["names"])
+        if route == "append":
+            df.append(ds[-1])
+            out["after_append"] = [canon(tuple(r)) for r in df._rows]
+            out["append_last"] = last_views(df, frame_probes(out["names"]), "dflt")
+        return out
+    except Exception as e:
+        return {"raised": type(e).__name__}
+
+
+def keyed_probes(fields):
+    return list(dict.fromkeys(list(fields[:3]) + ["absent"]))
+
+
+def _among(got, ok):
+    return any(wire.same(got, x) for x in ok)
+
+
+def oracle_keyed(case, out):
+    """Only what the statement demands.  DataFrame(dictionaries): the columns are the first dictionary's keys (as
+    text, in its order); position i of every row holds what that dictionary holds under the first dictionary's i-th
+    KEY.  Row(dict) / append(dict): position i holds what the dictionary holds under field NAME i (Python's
+    dictionary lookup of the text: a str-Enum member / str subclass equal to the name is that key).  Where the two
+    readings differ (a later record that has no key equal to the first dictionary's key but one equal to the column's
+    text; an appended record keyed by the first dictionary's non-text key) either value is accepted."""
+    ds = make_keys(case["records"])
+    route = case["route"]
+    if "raised" in out:
+        return ("building a row from a dictionary raised %s" if route == "row" else "DataFrame(dictionaries) raised %s") % out["raised"]
+    if route == "row":
+        fields = list(case["fields"])
+        want = [ds[0].get(f, None) for f in fields]
+        return judge_views(fields, want, out["first"], keyed_probes(fields), "dflt")
+    build = ds if route == "frame" else ds[:-1]
+    first = list(build[0])
+    names = [str(k) for k in first]
+    if out["names"] != names:
+        return "columns are not those of the first dictionary"
+    if out["rowcount"] != len(build) or len(out["rows"]) != len(build):
+        return "not exactly one row per dictionary"
+    for n, (r, d) in enumerate(zip(out["rows"], build)):
+        if len(r) != len(names):
+            return "a row is not as wide as the column list"
+        for k, name, cell in zip(first, names, r):
+            if k in d:
+                ok = [d[k]]
+            elif n and name in d:
+                ok = [None, d[name]]
+            else:
+                ok = [None]
+            if not _among(cell, ok):
+                return "a row does not hold each field's value at that field's position"
+    c = judge_frame_views(names, out["rows"], out.get("views"))
+    if c:
+        return c
+    if route == "append":
+        a = ds[-1]
+        if len(out["after_append"]) != len(build) + 1 or not wire.same(out["after_append"][:-1], out["rows"]):
+            return "append(dict) did not add exactly the record's row"
+        last = out["after_append"][-1]
+        if len(last) != len(names):
+            return "a row is not as wide as the column list"
+        for k, name, cell in zip(first, names, last):
+            ok = [a.get(name, None)]
+            if k in a:
+                ok.append(a[k])
+            if not _among(cell, ok):
+                return "append(dict) did not add exactly the record's row"
+        c = judge_views(names, last, out["append_last"], frame_probes(names), "dflt")
+        if c:
+            return c
+    return None
+
+
+VAL_KINDS = ("none", "bool", "int", "float", "str", "datetime", "time", "date", "decimal")
+
+
+def make_val(vd):
+    import datetime
+    import decimal
+
+    t, v = vd["t"], vd.get("v")
+    if t == "none":
+        return None
+    if t == "bool":
+        return bool(v)
+    if t == "int":
+        return int(v)
+    if t == "float":
+        return float.fromhex(v)
+    if t == "str":
+        return v
+    if t == "datetime":
+        tz = vd.get("tz")
+        return datetime.datetime(*v, tzinfo=None if tz is None else datetime.timezone(datetime.timedelta(minutes=tz)))
+    if t == "time":
+        return datetime.time(*v)
+    if t == "date":
+        return datetime.date(*v)
+    if t == "decimal":
+        return decimal.Decimal(v)
+    raise ValueError(t)
+
+
+def enc_val(x):
+    import datetime
+    import decimal
+
+    if x is None:
+        return {"t": "none"}
+    if type(x) is bool:
+        return {"t": "bool", "v": x}
+    if type(x) is int:
+        return {"t": "int", "v": str(x)}
+    if type(x) is float:
+        return {"t": "float", "v": x.hex()}
+    if type(x) is str:
+        return {"t": "str", "v": x}
+    if type(x) is datetime.datetime:
+        off = x.utcoffset()
+        d = {"t": "datetime", "v": [x.year, x.month, x.day, x.hour, x.minute, x.second, x.microsecond]}
+        if off is not None:
+            d["tz"] = int(off.total_seconds() // 60)
+        return d
+    if type(x) is datetime.time and x.tzinfo is None:
+        return {"t": "time", "v": [x.hour, x.minute, x.second, x.microsecond]}
+    if type(x) is datetime.date:
+        return {"t": "date", "v": [x.year, x.month, x.day]}
+    if type(x) is decimal.Decimal:
+        return {"t": "decimal", "v": str(x)}
+    return {"t": "other", "v": repr(x)[:80]}
+
+
+def valid_valdesc(vd):
+    if vd["t"] not in VAL_KINDS or not set(vd) <= {"t", "v", "tz"}:
+        return False
+    if "tz" in vd and not (vd["t"] == "datetime" and (vd["tz"] is None or type(vd["tz"]) is int and abs(vd["tz"]) < 1440)):
+        return False
+    if vd["t"] in ("datetime", "time", "date") and not all(type(x) is int for x in vd["v"]):
+        return False
+    x = make_val(vd)
+    if vd["t"] == "int":
+        return -(2**63) <= x < 2**64
+    if vd["t"] == "float":
+        return math.isfinite(x)
+    if vd["t"] == "decimal":
+        return x.is_finite()
+    if vd["t"] == "str":
+        return isinstance(x, str)
+    return enc_val(x) == {k: v for k, v in vd.items() if not (k == "tz" and v is None)}
+
+
+def valid_jsonval(c):
+    return (c["route"] in KEYED_ROUTES and all(isinstance(f, str) for f in c["fields"]) and len(c["fields"]) == len(c["cells"])
+            and (c["route"] == "row" or len(set(c["fields"])) == len(c["fields"]) >= 1)
+            and all(valid_valdesc(v) for v in c["cells"]) and set(c) == {"kind", "route", "fields", "cells"})
+
+
+def impl_jsonval(case):
+    from orso import DataFrame
+    from orso.row import Row
+
+    fields = list(case["fields"])
+    d = {}
+    for f, vd in zip(fields, case["cells"]):
+        d[f] = make_val(vd)
+    try:
+        if case["route"] == "row":
+            row = Row.create_class(fields)(dict(d))
+        elif case["route"] == "frame":
+            row = list(DataFrame([dict(d)]))[0]
+        else:
+            df = DataFrame([dict(d)])
+            df.append(dict(d))
+            row = df._rows[-1]
+        out = {"row": [enc_val(x) for x in tuple(row)], "as_dict": [[k, enc_val(v)] for k, v in row.as_dict.items()],
+               "as_map": [[k, enc_val(v)] for k, v in row.as_map], "gets": [enc_val(row.get(f, "dflt")) for f in fields]}
+    except Exception as e:
+        return {"raised": type(e).__name__}
+    try:
+        out["json_text"] = bytes(row.as_json).decode("utf-8")
+    except Exception as e:
+        out["json_raised"] = type(e).__name__
+    return out
+
+
+def json_cell_is(v, js):
+    """The JSON member read back names exactly the value the row holds (`default=str` / ISO text for what JSON has
+    no literal for: read back with the type's own parser it is the value, to the microsecond and with its offset)."""
+    import datetime
+    import decimal
+
+    try:
+        if v is None or type(v) is bool:
+            return js is v
+        if type(v) is int:
+            return type(js) is int and js == v
+        if type(v) is float:
+            return type(js) is float and js.hex() == v.hex()
+        if type(v) is str:
+            return type(js) is str and js == v
+        if type(v) is datetime.datetime:
+            p = datetime.datetime.fromisoformat(js)
+            return type(js) is str and p.replace(tzinfo=None) == v.replace(tzinfo=None) and p.utcoffset() == v.utcoffset()
+        if type(v) is datetime.time:
+            return type(js) is str and datetime.time.fromisoformat(js) == v
+        if type(v) is datetime.date:
+            return type(js) is str and "T" not in js and datetime.date.fromisoformat(js) == v
+        if type(v) is decimal.Decimal:
+            return type(js) in (str, int) and decimal.Decimal(js) == v
+    except Exception:
+        return False
+    return False
+
+
+def canonical_json_cell(v):
+    """The rendering the unchanged tree gives (orjson: ISO 8601 with the microseconds when there are any; str() for
+    what it hands to `default`)."""
+    import datetime
+    import decimal
+
+    if isinstance(v, (datetime.datetime, datetime.time, datetime.date)):
+        return v.isoformat()
+    if isinstance(v, decimal.Decimal):
+        return str(v)
+    return v
+
+
+JSON_CLAUSE = "as_json does not reproduce the field-to-value association"
+
+
+def time_five_digits(v, js):
+    """Open finding C02-K01: the installed orjson writes a time of day with 10000..99999 microseconds with FIVE
+    fractional digits (01:02:03.071265 -> "01:02:03.71265", which reads as .712650).  Exactly that text, nothing else."""
+    import datetime
+
+    return (type(v) is datetime.time and v.tzinfo is None and 10000 <= v.microsecond <= 99999
+            and js == "%02d:%02d:%02d.%d" % (v.hour, v.minute, v.second, v.microsecond))
+
+
+def known_time_rendering(case, failure):
+    """The failure is the JSON clause on a row of values, and every member that does not name its value is a time
+    of day written as C02-K01 says (any other loss on the same row - the seconds only, another digit - is reported)."""
+    try:
+        case = core.unjson(case)  # a replay writes a dictionary whose keys are not in sorted order as its item list
+        if case.get("kind") == "sequence":
+            case = case["cases"][-1]
+        out = core.unjson(failure.get("impl") or {})
+        if case.get("kind") != "jsonval" or failure.get("clause") != JSON_CLAUSE or "json_text" not in out:
+            return False
+        d = {f: make_val(vd) for f, vd in zip(case["fields"], case["cells"])}
+        js = json.loads(out["json_text"])
+        if not isinstance(js, dict) or set(js) != set(d):
+            return False
+        bad = [f for f in d if not json_cell_is(d[f], js[f])]
+        return bool(bad) and all(time_five_digits(d[f], js[f]) for f in bad)
+    except Exception:
+        return False
+
+
+def oracle_jsonval(case, out):
+    fields = list(case["fields"])
+    d = {}
+    for f, vd in zip(fields, case["cells"]):
+        d[f] = enc_val(make_val(vd))
+    if "raised" in out:
+        return "building a row from a dictionary raised %s" % out["raised"]
+    want = [d[f] for f in fields]
+    if out["row"] != want:
+        return "a field's value is not at that field's position (or absent field not null / extra key not ignored)"
+    if out["as_map"] != [[f, v] for f, v in zip(fields, want)]:
+        return "as_map does not reproduce the field-to-value association"
+    if out["as_dict"] != [[k, v] for k, v in d.items()]:
+        return "as_dict does not reproduce the field-to-value association"
+    if out["gets"] != want:
+        return "get(name, default) returned neither the field's value nor the default"
+    if "json_raised" in out:
+        return "as_json raised %s" % out["json_raised"]
+    try:
+        js = json.loads(out["json_text"])
+    except Exception:
+        return "as_json does not reproduce the field-to-value association"
+    if not isinstance(js, dict) or set(js) != set(d) or not all(json_cell_is(make_val(d[f]), js[f]) for f in d):
+        return "as_json does not reproduce the field-to-value association"
+    return None
+
+
+
 # ----------------------------------------------------------------------------- one case, any kind
 
 IMPL = {"row": (impl_row, oracle_row), "frame": (impl_frame, oracle_frame), "append": (impl_append, oracle_append),
         "ctx": (impl_ctx, lambda c, o: None), "session": (impl_session, oracle_session),
-        "bound": (impl_bound, oracle_bound), "sized": (impl_sized, oracle_sized)}
+        "bound": (impl_bound, oracle_bound), "sized": (impl_sized, oracle_sized),
+        "keyed": (impl_keyed, oracle_keyed), "jsonval": (impl_jsonval, oracle_jsonval)}
 
 
 def run_case(case):
@@ -1930,6 +2344,10 @@ def valid_case(c):
                                                   and set(c["dict"]) | {b["key"]} == set(c["fields"]))))
         if k == "session":
             return isinstance(c["ops"], list) and all(valid_op(op) for op in c["ops"])
+        if k == "keyed":
+            return valid_keyed(c)
+        if k == "jsonval":
+            return valid_jsonval(c)
         if k == "sequence":
             return len(c["cases"]) >= 1 and all(x["kind"] != "sequence" and valid_case(x) for x in c["cases"])
     except Exception:
@@ -2189,6 +2607,9 @@ def report(ctx, case, clause, out):
     if ctx.replaying:
         ctx.fail(ordered(case), clause, impl=out)
         return
+    if known_time_rendering(case, {"clause": clause, "impl": out}):
+        ctx.fail(ordered(case), clause, impl=out)  # an open finding: counted, not reduced again on every run
+        return
     deadline = time.time() + 30
 
     def fails(seq):
@@ -2278,6 +2699,16 @@ def classify(ctx, c):
             ctx.hit("same-dictionary-object-twice")
     elif k == "sized":
         ctx.hit("sized-via:" + c["via"] + ":" + c["big"].get("as", "str"))
+    elif k == "keyed":
+        ctx.hit("keyed-route:" + c["route"])
+        for kd in {x[0]["k"] for rec in c["records"][:1] for x in rec}:
+            ctx.hit("keyed-first-dictionary-key:%s:%s" % (kd, c["route"]))
+    elif k == "jsonval":
+        ctx.hit("jsonval-route:" + c["route"])
+        for vd in c["cells"]:
+            us = vd["v"][-1] if vd["t"] in ("datetime", "time") else None
+            ctx.hit("jsonval:" + vd["t"] + ("" if us is None else ":microseconds=" + ("0" if us == 0 else "nonzero"))
+                    + (":offset" if vd.get("tz") is not None else ""))
     elif k == "ctx":
         ctx.hit("ctx:" + c["what"])
         SEEN_CTX.setdefault(tuple(c["fields"]), set()).add(c["what"])
@@ -2430,7 +2861,7 @@ def evaluate(ctx, cases):
     jouts = dict(zip([i for i, _ in jl], ctx.model.batch([l for _, l in jl]))) if jl else {}
     for i, c in enumerate(cases):
         out, clause = run_case(c)
-        nontrivial = bool(c.get("fields") or c.get("dicts") or c.get("ops") or c.get("cases"))
+        nontrivial = bool(c.get("fields") or c.get("dicts") or c.get("ops") or c.get("cases") or c.get("records"))
         ctx.case(c, nontrivial)
         classify(ctx, c)
         observe(ctx, c, out)
@@ -2952,7 +3383,140 @@ def exhaustive_mappings():
             {"op": "reread", "frame": 0}, {"op": "reread", "frame": 1}]}
 
 
+KEY_POOL = [{"k": "str", "v": "a"}, {"k": "str", "v": "id"}, {"k": "str", "v": "1"}, {"k": "str", "v": "Col.M0"}, {"k": "str", "v": "None"},
+            {"k": "fresh", "v": "id"}, {"k": "fresh", "v": "name"}, {"k": "enum", "v": "id"}, {"k": "enum", "v": "name"},
+            {"k": "strsub", "v": "id", "shown": "ID"}, {"k": "strsub", "v": "a", "shown": "b"}, {"k": "strsub", "v": "b", "shown": "b"},
+            {"k": "int", "v": 1}, {"k": "int", "v": 2023}, {"k": "int", "v": -1}, {"k": "bool", "v": True}, {"k": "bool", "v": False},
+            {"k": "none"}, {"k": "float", "v": 1.5}, {"k": "float", "v": 2023.0}, {"k": "date", "v": [2024, 2, 29]},
+            {"k": "tuple", "v": [1, "x"]}, {"k": "tuple", "v": []}, {"k": "bytes", "v": "6964"}, {"k": "bytes", "v": ""}]
+
+
+def keyed_cases(k1, k2):
+    """Two keys: a frame of four records (both keys, the other order, one key, none), the same with the last record
+    appended, and the first record as a free-standing row under the keys' texts and under str(key)."""
+    recs = [[[k1, 1], [k2, "x"]], [[k2, "y"], [k1, 2]], [[k1, 3]], [], [[k2, "z"], [k1, 4]]]
+    yield {"kind": "keyed", "route": "frame", "records": recs[:4]}
+    yield {"kind": "keyed", "route": "append", "records": recs}
+    yield {"kind": "keyed", "route": "append", "records": [recs[0], recs[2]]}
+    try:
+        keys = list(make_keys([recs[0]])[0])
+    except Exception:
+        return
+    texts = [str.__str__(k) if isinstance(k, str) else str(k) for k in keys]
+    for fields in ([str(k) for k in keys], texts, list(reversed(texts)) + ["absent"]):
+        yield {"kind": "keyed", "route": "row", "records": [recs[0]], "fields": fields}
+
+
+def exhaustive_keyed():
+    for k1 in KEY_POOL:
+        for k2 in KEY_POOL:
+            if k1 is not k2:
+                for c in keyed_cases(k1, k2):
+                    if valid_case(c):
+                        yield c
+
+
+def gen_keyed_case(rng):
+    pool = list(KEY_POOL)
+    for _ in range(3):
+        t = rng.choice(["id", "a", "é", "", "a b", gen_text(rng, 4)])
+        pool.append(rng.choice([{"k": "enum", "v": t}, {"k": "strsub", "v": t, "shown": rng.choice(NAMES)}, {"k": "fresh", "v": t},
+                                {"k": "int", "v": rng.randrange(-3, 3000)}, {"k": "date", "v": [rng.randrange(1, 9999), rng.randrange(1, 13), rng.randrange(1, 29)]},
+                                {"k": "tuple", "v": [rng.randrange(3) for _ in range(rng.randrange(3))]}]))
+    for _ in range(20):
+        first = rng.sample(pool, rng.randrange(1, 5))
+        recs = []
+        for _ in range(rng.randrange(1, 5)):
+            ks = rng.sample(first, rng.randrange(0, len(first) + 1)) + rng.sample(pool, rng.randrange(0, 2))
+            rng.shuffle(ks)
+            recs.append([[k, rng.choice([None, True, 0, rng.randrange(100), gen_text(rng, 3)])] for k in ks])
+        recs[0] = [[k, rng.choice([0, rng.randrange(1, 100), gen_text(rng, 3)])] for k in first]
+        route = rng.choice(KEYED_ROUTES)
+        c = {"kind": "keyed", "route": route, "records": recs}
+        if route == "row":
+            try:
+                ks = list(make_keys([recs[0]])[0])
+            except Exception:
+                continue
+            c["records"] = [recs[0]]
+            c["fields"] = [rng.choice([str(k), str.__str__(k) if isinstance(k, str) else str(k), rng.choice(NAMES)]) for k in ks + ks[:1]]
+            rng.shuffle(c["fields"])
+        elif route == "append" and len(recs) < 2:
+            recs.append(list(reversed(recs[0])))
+        if valid_case(c):
+            return c
+    return {"kind": "keyed", "route": "frame", "records": [[[{"k": "int", "v": 1}, 1]]]}
+
+
+def _dt(*v, tz=None):
+    d = {"t": "datetime", "v": list(v)}
+    if tz is not None:
+        d["tz"] = tz
+    return d
+
+
+VAL_POOL = ([_dt(2024, 2, 29, 23, 59, 59, us, tz=tz) for us in (0, 1, 250000, 999999) for tz in (None, 0, -330, 60)]
+            + [_dt(1, 1, 1, 0, 0, 0, 1), _dt(9999, 12, 31, 23, 59, 59, 999999), _dt(1970, 1, 1, 0, 0, 0, 0)]
+            + [{"t": "time", "v": [h, m, sec, us]} for (h, m, sec) in ((6, 30, 0), (23, 59, 59), (0, 0, 0)) for us in (0, 1, 250000, 999999)]
+            + [{"t": "date", "v": v} for v in ([1, 1, 1], [2024, 2, 29], [9999, 12, 31])]
+            + [{"t": "float", "v": x.hex()} for x in (0.1 + 0.2, 5e-324, 1.7976931348623157e308, -0.0, 1e22, 1 / 3, 2.0**53 + 2, 1e-7,
+                                                        123456.78901234567, 0.1, 1.0, -1.5e300)]
+            + [{"t": "int", "v": str(x)} for x in (0, 2**53 - 1, 2**53, 2**53 + 1, -2**53 - 1, -2**53 + 1, 2**63 - 1, 2**63, 2**63 + 1,
+                                                     -2**63, -2**63 + 1, 2**64 - 1, 10**18 + 1)]
+            + [{"t": "decimal", "v": v} for v in ("1.10", "1E+3", "-0.000", "123456789012345678901234567890.123456789", "0", "7")]
+            + [{"t": "str", "v": v} for v in ("", "ann", "2024-02-29T23:59:59", "é\"\\\n")]
+            + [{"t": "none"}, {"t": "bool", "v": True}, {"t": "bool", "v": False}])
+
+
+def exhaustive_jsonval():
+    for vd in VAL_POOL:
+        for route in KEYED_ROUTES:
+            yield {"kind": "jsonval", "route": route, "fields": ["v"], "cells": [vd]}
+    for i in range(0, len(VAL_POOL), 5):
+        chunk = VAL_POOL[i: i + 5]
+        for route in KEYED_ROUTES:
+            yield {"kind": "jsonval", "route": route, "fields": ["f%d" % j for j in range(len(chunk))], "cells": chunk}
+
+
+def gen_valdesc(rng):
+    r = rng.random()
+    if r < 0.3:
+        us = rng.choice([0, 1, 999999, rng.randrange(10**6), rng.randrange(1000) * 1000])
+        return _dt(rng.randrange(1, 10000), rng.randrange(1, 13), rng.randrange(1, 29), rng.randrange(24), rng.randrange(60),
+                   rng.randrange(60), us, tz=rng.choice([None, None, 0, rng.randrange(-14 * 60, 14 * 60 + 1)]))
+    if r < 0.45:
+        return {"t": "time", "v": [rng.randrange(24), rng.randrange(60), rng.randrange(60), rng.choice([0, 1, 999999, rng.randrange(10**6)])]}
+    if r < 0.55:
+        return {"t": "date", "v": [rng.randrange(1, 10000), rng.randrange(1, 13), rng.randrange(1, 29)]}
+    if r < 0.7:
+        x = rng.choice([rng.random(), rng.uniform(-1e6, 1e6), rng.random() * 10.0**rng.randrange(-300, 300), float(rng.randrange(2**53, 2**62))])
+        return {"t": "float", "v": x.hex()}
+    if r < 0.85:
+        e = rng.choice([53, 63, 64, 31, 32])
+        return {"t": "int", "v": str(max(-2**63, min(2**64 - 1, rng.choice([1, -1]) * (2**e + rng.randrange(-2, 3)))))}
+    if r < 0.95:
+        return {"t": "decimal", "v": "%s%d.%s" % (rng.choice(["", "-"]), rng.randrange(10**rng.randrange(1, 25)), "%0*d" % (rng.randrange(1, 12), rng.randrange(1000)))}
+    return rng.choice(VAL_POOL)
+
+
+def gen_jsonval_case(rng):
+    route = rng.choice(KEYED_ROUTES)
+    n = rng.randrange(1, 5)
+    fields = rng.sample(NAMES, n) if route != "row" else [rng.choice(NAMES) for _ in range(n)]
+    c = {"kind": "jsonval", "route": route, "fields": fields, "cells": [gen_valdesc(rng) for _ in range(n)]}
+    if route == "row":  # a repeated name: the dictionary holds the last cell written under it
+        last = {f: v for f, v in zip(fields, c["cells"])}
+        c["cells"] = [last[f] for f in fields]
+    return c if valid_case(c) else {"kind": "jsonval", "route": "row", "fields": ["v"], "cells": [rng.choice(VAL_POOL)]}
+
+
+
 def gen_any(rng):
+    r = rng.random()
+    if r < 0.04:
+        return gen_keyed_case(rng)
+    if r < 0.07:
+        return gen_jsonval_case(rng)
     r = rng.random()
     if r < 0.38:
         return gen_row_case(rng)
@@ -3005,6 +3569,19 @@ def run(ctx):
         ctx.note("exhaustive_sized", "%d appends of a record whose packed values are at / one below / one past every size threshold "
                  "of the source's record guard (stated limit %d; thresholds %r, offsets %r), on a frame of dictionaries, a names-only "
                  "frame and a schema-bound frame" % ((len(szd), DOCUMENTED_LIMIT) + sized_thresholds()))
+        kyd = list(exhaustive_keyed())
+        evaluate(ctx, kyd)
+        ctx.note("exhaustive_keyed", "%d cases: every ordered pair of %d keys that are not (all) plain text (str-Enum members, str "
+                 "subclasses with their own __str__, equal-but-not-identical texts, int / bool / None / float / date / tuple / bytes "
+                 "keys, and the texts their str() gives) as the keys of the first dictionary x DataFrame(dictionaries) of four "
+                 "records, the same with a record appended, Row(dict) under the keys' texts" % (len(kyd), len(KEY_POOL)))
+        jvs = list(exhaustive_jsonval())
+        evaluate(ctx, jvs)
+        ctx.note("exhaustive_jsonval", "%d rows: each of %d values JSON has no literal for or renders at a limit (date-times / times "
+                 "with 0, 1, 250000, 999999 microseconds, naive and with offsets; dates; floats needing 17 digits, subnormal, "
+                 "largest, -0.0; integers at +-2**53+-1, +-2**63, 2**64-1; Decimals) x Row(dict) / DataFrame(dictionaries) / append; "
+                 "the JSON text is parsed and every member read back with the value's own parser must BE the row's value"
+                 % (len(jvs), len(VAL_POOL)))
         rds = list(exhaustive_reads())
         evaluate(ctx, rds)
         ctx.note("exhaustive_reads", "%d rows: every subset of the %d views read before the caller changes every changeable object "
@@ -3041,4 +3618,4 @@ def replay(ctx, case):
     evaluate(ctx, [case])
 
 
-KNOWN_PREDICATES = {}
+KNOWN_PREDICATES = {"time_of_day_five_fraction_digits": known_time_rendering}
